@@ -247,6 +247,9 @@ fn main() {
                     rules::apply_all(&mut block, item, &mut fired, &name);
                 }
                 rules::clean_sig(&mut sig);
+                if item.get("world").and_then(|x| x.as_bool()).unwrap_or(false) {
+                    sig.inputs.push(parse_quote! { Tracked(w): Tracked<&mut World> });
+                }
                 rules::mark(&mut block, &marker_name);
                 let ret = rules::ret_marker(&mut sig);
                 let f = quote! { #sig #block };
@@ -255,7 +258,8 @@ fn main() {
                         sh.attrs.clear();
                         let (impl_generics, _, where_clause) = sh.generics.split_for_impl();
                         let self_ty = &sh.self_ty;
-                        let tr = sh.trait_.as_ref().map(|(_, p, _)| quote! { #p for });
+                        let inherent = item.get("inherent").and_then(|x| x.as_bool()).unwrap_or(false);
+                        let tr = if inherent { None } else { sh.trait_.as_ref().map(|(_, p, _)| quote! { #p for }) };
                         let wc = rules::clean_where(where_clause);
                         quote! { impl #impl_generics #tr #self_ty #wc { #f } }.to_string()
                     }
